@@ -321,7 +321,7 @@ def signature(gkf, bad, txt, variant):
                     for g in groups.values()):
         return "F15"
     if variant.startswith("omitted") and rows and "<azimuth" in gkf and \
-            any(r[2] == "azim." and abs(abs(r[3]) - 1.0e6) < 1.0 for r in rows):
+            any(r[2] == "azim." and abs(abs(r[3]) - 1.0e6) < 1.0 and f20_mechanism(gkf, r[0]) for r in rows):
         # an azimuth observed FROM a point without approximate coordinates: the point is placed exactly 100 gon
         # off (finding F20 of round 3: not by AcordAzimuth — by the intersection / polar machinery that runs first)
         return "C06-azimuth-from-unknown"
@@ -345,6 +345,27 @@ def signature(gkf, bad, txt, variant):
     if bad and all(re.match(r"\S+\.z off by|residual (zenith-angle|slope-distance)", b) for b in bad):
         return "C06-z-underiterated"
     return "other:" + (bad[0].split()[0] if bad else "?")
+
+
+def f20_mechanism(gkf, station):
+    """the narrow mechanism of finding C06-F20: `station` has no approximate xy in the input, an azimuth is observed FROM
+    it, and it is tied by at least two distances (so that the intersection machinery gets to it before AcordAzimuth)"""
+    m = re.search(r'<point id="%s"([^>]*)/>' % re.escape(station), gkf)
+    if not m or re.search(r'\bx="', m.group(1)):
+        return False
+    ndist, has_az, cur = 0, False, None
+    for t in re.finditer(r'<obs from="([^"]*)">|<(distance|s-distance|azimuth) ([^>]*)/>', gkf):
+        if t.group(1) is not None:
+            cur = t.group(1)
+            continue
+        to = re.search(r'to="([^"]*)"', t.group(3))
+        fr = re.search(r'from="([^"]*)"', t.group(3))
+        f_, t_ = (fr.group(1) if fr else cur), (to.group(1) if to else None)
+        if t.group(2) == "azimuth":
+            has_az = has_az or f_ == station
+        elif station in (f_, t_):
+            ndist += 1
+    return has_az and ndist >= 2
 
 
 def flatten(net):
@@ -493,14 +514,19 @@ def acord_stream(ctx, corr, exe, drv, n):
     cases, meta = [], []
     corpus = ctx.verif / "corpus" / "C06"
     for f in sorted(corpus.glob("acord-*.txt")) if corpus.exists() else []:
+        truth = None                      # `#truth {"id": [x, y, z], …}`: exact data, the oracle applies (regressions)
         for l in f.read_text().splitlines():
-            if l.strip() and not l.startswith("#"):
-                cases.append([l.strip()]); meta.append(dict(alg="corpus", consistent=False, branches=set(), corpus=f.name))
+            if l.startswith("#truth "):
+                truth = {k: tuple(v) for k, v in json.loads(l[7:]).items()}
+            elif l.strip() and not l.startswith("#"):
+                cases.append([l.strip()])
+                meta.append(dict(alg=l.split()[1], consistent=truth is not None, truth=truth, branches=set(), corpus=f.name))
     for _ in range(n):
         line, m = A.gen(rng)
         cases.append([line]); meta.append(m)
     impl, crashes = run_cases(exe, cases)
     model, _ = run_cases(drv, cases)
+    failed = 0
     for i, c in enumerate(cases):
         m = meta[i]
         computed = sum(1 for l in impl[i] if l.startswith("pt ") and (l.split()[2] == "1" or l.split()[5] == "1"))
@@ -515,11 +541,13 @@ def acord_stream(ctx, corr, exe, drv, n):
         ok = len(impl[i]) == len(model[i]) and all(lines_equal(a, b, rtol=1e-9, atol=1e-7) for a, b in zip(impl[i], model[i]))
         if not ok:
             corr.disagree("acord", c, impl[i], model[i])
-            continue
-        why = A.check(m, impl[i])
-        if why:
+        # the oracle looks at the implementation's own answer, whether or not the model agrees
+        why = A.check(m, impl[i]) if m.get("truth") else None
+        if why and failed < 5:
+            failed += 1
             corr.fail("a strategy step publishes a coordinate that is not the true one: " + why,
-                      {"stream": "acord", "ops": c, "truth": m["truth"]}, "Acord" + m["alg"].capitalize() + "::execute")
+                      {"stream": "acord", "ops": c, "truth": m["truth"], "finding": m.get("finding")},
+                      "Acord" + m["alg"].capitalize() + "::execute")
     corr.count("acord_cases", len(cases))
     need = ["acord_azimuth_known-first", "acord_azimuth_known-second", "acord_hdiff_from-known", "acord_hdiff_to-known",
             "acord_vector_from-known", "acord_vector_to-known", "acord_zderived_station-known", "acord_zderived_target-known"]
